@@ -1,4 +1,5 @@
 import Proofs.Codec
+import PikoModel.Gossip.Net
 import PikoModel.Generated.Facts
 /-!
 # C13 — Gossip packets fit the size limit, decode to prefixes, survive hostile input
@@ -66,6 +67,30 @@ theorem C13_prefix (h : DeltaHeader) (d : Delta) (max : Nat) (bs : Bytes)
   · simp only [hx, if_false, Option.some.injEq] at he
     subst he
     exact decodeDelta_packet h d _ hh hd
+
+/-- The whole-item prefix of the byte level is the `cutDelta` of the network model
+(`PikoModel/Gossip/Net.lean`), whose theorems (C02, C03, C11) quantify over every cut. -/
+theorem C13_takeItems_eq_cutDelta (n : Nat) (d : Delta) : takeItems n d = cutDelta n d := by
+  induction d generalizing n with
+  | nil => cases n <;> rfl
+  | cons de ds ih =>
+    cases n with
+    | zero => rfl
+    | succ n =>
+      unfold takeItems cutDelta
+      by_cases hlt : n < de.entries.length
+      · have h0 : n - de.entries.length = 0 := by omega
+        simp only [hlt, if_true, h0]
+        cases ds <;> rfl
+      · have : de.entries.take n = de.entries := List.take_of_length_le (by omega)
+        simp only [hlt, if_false, this, ih]
+
+/-- Hence: what a receiver decodes from a real delta datagram of any `maxPacketSize` is a step
+of the network model - `cutDelta` at the number of items the encoder fitted. -/
+theorem C13_prefix_is_net_cut (h : DeltaHeader) (d : Delta) (max : Nat) (bs : Bytes)
+    (hh : DeltaHeaderOk h) (hd : DeltaOk d) (he : encodeDelta h d max = some bs) :
+    decodeDelta bs = .ok (h, cutDelta (sentDelta h d max) d) := by
+  rw [← C13_takeItems_eq_cutDelta]; exact C13_prefix h d max bs hh hd he
 
 /-- Same for digests: the decoded digest is the first `sentDigest h g max` entries. -/
 theorem C13_prefix_digest (h : DigestHeader) (g : Digest) (max : Nat) (bs : Bytes)
